@@ -27,8 +27,8 @@ class ScopeUnit(Unit):
     handler = "scope"
     cfg = "shim17"
     bound = {"quick": 2, "thorough": 3}
-    maxruns = {"quick": 2500, "thorough": 40000}
-    nrandom = {"quick": 150, "thorough": 2000}
+    maxruns = {"quick": 1500, "thorough": 40000}
+    nrandom = {"quick": 100, "thorough": 2000}
     def strict(self):
         """The model variant tied to the code: end_scope / end_of_scope sets the event only when
         this very call closed the scope (read open and count = 0).  The variant the code had before
